@@ -112,12 +112,12 @@ def main():
             msg = "a valid public key does not parse"
         elif cat.startswith("F.key-frames-as-pem") and cat.endswith("-der") and (("priv" in cat and not rp.startswith("P:ok")) or ("pub" in cat and not ru.startswith("U:ok"))):
             msg, known = "the DER form of a key does not parse although its PEM form does (PEM and DER forms must parse identically)", "K18-der-frames-as-pem"
+        elif cat.startswith("F.key-has-begin-marker") and (("priv" in cat and not rp.startswith("P:ok")) or ("pub" in cat and not ru.startswith("U:ok"))):
+            msg = "a key whose bytes contain a PEM begin marker (no complete frame) does not parse in its %s form (PEM and DER forms must parse identically)" % ("DER" if "-der-" in cat else "PEM")
         elif rm.startswith("M:ok:0:") and not cat.startswith("A.") :
             msg, known = "parse_openssl_25519_pubkeys_pem_many returns Ok(empty) on an input that holds no key instead of an error", "K18-many-ok-without-key"
         elif cat.startswith("D.many") and rm.startswith("M:ok") and any(t in cat for t in ("garbage", "truncated", "no-end", "der-appended")):
             msg, known = "parse_openssl_25519_pubkeys_pem_many ignores an unframed tail after the last complete block", "K18-many-ok-without-key"
-        elif cat.startswith("F.key-has-begin-marker") and (("priv" in cat and not rp.startswith("P:ok")) or ("pub" in cat and not ru.startswith("U:ok"))):
-            msg = "a key whose bytes contain a PEM begin marker (no complete frame) does not parse in its %s form (PEM and DER forms must parse identically)" % ("DER" if "-der-" in cat else "PEM")
         elif ":sel=" in cat:
             # a bundle of valid blocks parses to the keys its blocks parse to, in order (repeats included)
             idx = [int(x) for x in cat.split(":sel=")[1].split(",")]
